@@ -124,3 +124,295 @@ def run_auth_program(prog, style="generator"):
     return {"prog": list(prog), "events": events, "style": style,
             "final": {"status": status, "result": entries},
             "produced": notes["produced"], "transport_ok": notes["transport_ok"], "error": err}
+
+
+# ============================================================================ C45  AgentSign
+
+import struct
+
+PASSED_ALGS = ["ssh-ed25519", "ecdsa-sha2-nistp256", "ecdsa-sha2-nistp384", "ecdsa-sha2-nistp521",
+               "rsa-sha2-512", "rsa-sha2-256", "ssh-rsa"]          # Transport._preferred_pubkeys
+CERT_SUFFIX = "-cert-v01@openssh.com"
+UNKNOWN_ALGS = ["", "x", "ssh-dss", "rsa-sha2-384", "RSA-SHA2-256", "rsa-sha2-256 ", " rsa-sha2-512", "rsa-sha2-256-cert-v01",
+                "rsa-sha2-512-cert-v02@openssh.com", "rsa-sha2-256,rsa-sha2-512", "rsa-sha2-512@openssh.com", "sha256"]
+NONE_ALG = "<none>"
+
+
+def agent_algs():
+    return [NONE_ALG] + PASSED_ALGS + [a + CERT_SUFFIX for a in PASSED_ALGS] + UNKNOWN_ALGS
+
+
+def agent_key_fixtures():
+    """kind -> {"listed": blob an agent lists for the key, "plain": the key's plain public key blob}"""
+    from harness.core import REPO, Machinery
+    from paramiko import RSAKey, Ed25519Key, ECDSAKey, Message
+    sup, tests = REPO / "tests" / "_support", REPO / "tests"
+    fx = {}
+
+    def add(kind, cls, keyfile, cert=None):
+        if not keyfile.exists() or (cert is not None and not cert.exists()):
+            raise Machinery("key fixture %s missing" % keyfile)
+        k = cls.from_private_key_file(str(keyfile))
+        plain = k.asbytes()
+        fx[kind] = {"listed": plain, "plain": plain}
+        if cert is not None:
+            k.load_certificate(str(cert))
+            if k.public_blob.key_blob == plain:
+                raise Machinery("certificate fixture %s is not a certificate" % cert)
+            fx[kind + "-cert"] = {"listed": k.public_blob.key_blob, "plain": plain}
+
+    add("rsa", RSAKey, sup / "rsa.key", sup / "rsa.key-cert.pub")
+    add("ed25519", Ed25519Key, sup / "ed25519.key", sup / "ed25519.key-cert.pub")
+    add("ecdsa256", ECDSAKey, sup / "ecdsa-256.key", sup / "ecdsa-256.key-cert.pub")
+    add("ecdsa384", ECDSAKey, tests / "test_ecdsa_384.key")
+    add("ecdsa521", ECDSAKey, tests / "test_ecdsa_521.key")
+    m = Message()
+    m.add_string("ssh-ed448")
+    m.add_string(bytes(range(57)))
+    fx["unknown"] = {"listed": m.asbytes(), "plain": m.asbytes()}
+    return fx
+
+
+def cert_kinds(fx):
+    return {k for k in fx if k.endswith("-cert")}
+
+
+class FakeAgentConn:
+    """socket-like object: records what is sent, answers with a prepared byte string in chunks"""
+
+    def __init__(self, reply, chunks=None):
+        self.sent, self.reply, self.chunks, self.closed = [], reply, list(chunks or []), False
+
+    def send(self, data):
+        self.sent.append(bytes(data))
+        return len(data)
+
+    sendall = send
+
+    def recv(self, n):
+        if self.chunks:
+            n = max(1, min(n, self.chunks.pop(0)))
+        out, self.reply = self.reply[:n], self.reply[n:]
+        return out
+
+    def close(self):
+        self.closed = True
+
+
+def _string(b):
+    return struct.pack(">I", len(b)) + b
+
+
+def parse_sign_frames(raw, ids):
+    """split the bytes written to the agent into frames and each frame into the fields of a sign
+    request, by the layout of the agent protocol (independent of paramiko.Message)"""
+    frames, pos = [], 0
+    while pos < len(raw):
+        f = {"type": 0, "blob": "other", "data": "other", "flags": -1, "framed": False}
+        frames.append(f)
+        if len(raw) - pos < 5:
+            break
+        (n,) = struct.unpack(">I", raw[pos:pos + 4])
+        body = raw[pos + 4:pos + 4 + n]
+        pos += 4 + n
+        if len(body) < n or n < 1:
+            continue
+        f["type"] = body[0]
+        p, fields = 1, []
+        for _ in range(2):
+            if len(body) - p < 4:
+                break
+            (ln,) = struct.unpack(">I", body[p:p + 4])
+            if len(body) - p - 4 < ln:
+                break
+            fields.append(body[p + 4:p + 4 + ln])
+            p += 4 + ln
+        if len(fields) == 2:
+            blob, data = fields
+            f["blob"] = "listed" if blob == ids["listed"] else "plain" if blob == ids["plain"] else "other"
+            f["data"] = "data" if data == ids["data"] else "other"
+            if len(body) - p >= 4:
+                (fl,) = struct.unpack(">I", body[p:p + 4])
+                f["flags"] = fl if fl < 2 ** 31 else -1
+                f["framed"] = (len(body) - p == 4)
+    return frames
+
+
+_agent_keys = {}
+
+
+def run_agent_sign(fx, kind, alg, rtype, data, sig, body=None, chunks=None, kwarg=True):
+    """one AgentKey.sign_ssh_data call over a fake agent connection; returns the record of AgentSign_Trace.tla"""
+    from paramiko.agent import AgentSSH, AgentKey
+    if body is None:
+        body = _string(sig)
+    reply = bytes([rtype]) + body
+    conn = FakeAgentConn(_string(reply), chunks)
+    agent = AgentSSH()
+    agent._conn = conn
+    key = _agent_keys.get((id(fx), kind))
+    if key is None:
+        key = _agent_keys[(id(fx), kind)] = AgentKey(agent, fx[kind]["listed"])
+    key.agent = agent
+    outcome, err = {"kind": "raised", "sig": "none"}, None
+    try:
+        if alg == NONE_ALG:
+            ret = key.sign_ssh_data(data) if kwarg else key.sign_ssh_data(data, None)
+        else:
+            ret = key.sign_ssh_data(data, algorithm=alg) if kwarg else key.sign_ssh_data(data, alg)
+        outcome = {"kind": "returned", "sig": "sig" if isinstance(ret, bytes) and ret == sig else "other"}
+    except Exception as e:
+        err = repr(e)
+    ids = {"listed": fx[kind]["listed"], "plain": fx[kind]["plain"], "data": bytes(data)}
+    return {"alg": alg, "key": kind, "rtype": rtype, "sent": parse_sign_frames(b"".join(conn.sent), ids),
+            "outcome": outcome, "error": err, "datalen": len(data), "siglen": len(sig)}
+
+
+# ============================================================================ C33  SftpAttr
+
+def limbs(v, width):
+    """a non-negative int as `width` 16-bit limbs, most significant first (longer if it does not fit;
+    [-1] for anything that is not a non-negative int)"""
+    if isinstance(v, bool) or not isinstance(v, int) or v < 0:
+        return [-1]
+    out = []
+    while v:
+        out.append(v & 0xFFFF)
+        v >>= 16
+    out += [0] * (width - len(out))
+    return out[::-1]
+
+
+def unlimbs(ls):
+    v = 0
+    for x in ls:
+        v = (v << 16) | x
+    return v
+
+
+def as_bytes_list(x):
+    if isinstance(x, str):
+        x = x.encode("utf-8")
+    return list(bytes(x))
+
+
+def recording_message_class():
+    from paramiko.message import Message
+
+    class RecMessage(Message):
+        """a Message that logs each outermost add_* / get_* call as a token of SftpAttr.tla"""
+
+        def __init__(self, content=None):
+            super().__init__(content)
+            self.toks, self._depth = [], 0
+
+        def _call(self, fn, tok_of_arg, tok_of_result, *a):
+            self._depth += 1
+            try:
+                r = fn(*a)
+            finally:
+                self._depth -= 1
+            if self._depth == 0:
+                self.toks.append(tok_of_arg(*a) if tok_of_arg else tok_of_result(r))
+            return r
+
+        @staticmethod
+        def _u32(v):
+            return {"k": "u32", "n": limbs(v, 2), "s": []}
+
+        @staticmethod
+        def _u64(v):
+            return {"k": "u64", "n": limbs(v, 4), "s": []}
+
+        @staticmethod
+        def _str(v):
+            return {"k": "str", "n": [], "s": as_bytes_list(v)}
+
+        @staticmethod
+        def _other(*a):
+            return {"k": "other", "n": [], "s": []}
+
+        def add_int(self, n):
+            return self._call(super().add_int, self._u32, None, n)
+
+        def add_int64(self, n):
+            return self._call(super().add_int64, self._u64, None, n)
+
+        def add_string(self, s):
+            return self._call(super().add_string, self._str, None, s)
+
+        def get_int(self):
+            return self._call(super().get_int, None, self._u32)
+
+        def get_int64(self):
+            return self._call(super().get_int64, None, self._u64)
+
+        def get_string(self):
+            return self._call(super().get_string, None, self._str)
+
+        def get_binary(self):
+            return self._call(super().get_binary, None, self._str)
+
+        # anything else _pack/_unpack might start using shows up as an "other" token
+        def add_bytes(self, b):
+            return self._call(super().add_bytes, self._other, None, b)
+
+        def add_byte(self, b):
+            return self._call(super().add_byte, self._other, None, b)
+
+        def add_boolean(self, b):
+            return self._call(super().add_boolean, self._other, None, b)
+
+        def add_mpint(self, z):
+            return self._call(super().add_mpint, self._other, None, z)
+
+        def add_adaptive_int(self, n):
+            return self._call(super().add_adaptive_int, self._other, None, n)
+
+        def get_bytes(self, n):
+            return self._call(super().get_bytes, None, self._other, n)
+
+        def get_text(self):
+            return self._call(super().get_text, None, self._other)
+
+        def get_mpint(self):
+            return self._call(super().get_mpint, None, self._other)
+
+        def get_adaptive_int(self):
+            return self._call(super().get_adaptive_int, None, self._other)
+
+    return RecMessage
+
+
+ATTR_FIELDS = (("size", "st_size", 4), ("uid", "st_uid", 2), ("gid", "st_gid", 2), ("mode", "st_mode", 2),
+               ("atime", "st_atime", 2), ("mtime", "st_mtime", 2))
+
+
+def run_attr_roundtrip(values, ext):
+    """values: {"size"/"uid"/...: int | float | None}; ext: list of (key, value) with str or bytes members.
+    Packs with the real _pack, unpacks the bytes with the real _unpack; returns the record of SftpAttr_Trace.tla"""
+    from paramiko.sftp_attr import SFTPAttributes
+    Rec = recording_message_class()
+    a = SFTPAttributes()
+    abstract, fractional = {}, False
+    for name, attr, width in ATTR_FIELDS:
+        v = values.get(name)
+        setattr(a, attr, v)
+        if v is None:
+            abstract[name] = []
+        else:
+            if not isinstance(v, int):
+                fractional = True
+            abstract[name] = [limbs(int(v), width)]
+    a.attr = dict(ext)
+    abstract["ext"] = [[as_bytes_list(k), as_bytes_list(v)] for k, v in ext]
+    w = Rec()
+    a._pack(w)
+    raw = w.asbytes()
+    r = Rec(raw)
+    d = SFTPAttributes._from_msg(r)
+    dec = {name: ([] if getattr(d, attr) is None else [limbs(getattr(d, attr), width)]) for name, attr, width in ATTR_FIELDS}
+    dec["ext"] = [[as_bytes_list(k), as_bytes_list(v)] for k, v in d.attr.items()]
+    return {"attrs": abstract, "fractional": fractional, "flags": limbs(a._flags, 2), "wtoks": w.toks,
+            "rflags": limbs(d._flags, 2), "rtoks": r.toks, "dec": dec, "unread": len(r.get_remainder()),
+            "input": {"values": {k: v for k, v in values.items() if v is not None}, "ext": [[repr(k), repr(v)] for k, v in ext]}}
